@@ -16,6 +16,7 @@ import (
 	"fmt"
 	"io"
 	"math"
+	"strings"
 	"testing"
 	"testing/iotest"
 
@@ -1533,6 +1534,16 @@ func TestReplay(t *testing.T) {
 	if test == "TestEnumWitnesses/direct" {
 		if err := stats.Guard(witnessRetryCollection); err != nil {
 			t.Fatalf("witness still fails: %v", err)
+		}
+		return
+	}
+	if strings.HasPrefix(test, "TestPropReuse") || test == "TestEnumReusePairs" {
+		var sc SeqCase
+		if err := json.Unmarshal(raw, &sc); err != nil {
+			t.Fatal(err)
+		}
+		if err := stats.Guard(func() error { return checkSeq(sc) }); err != nil {
+			t.Fatalf("replayed sequence still fails: %v", err)
 		}
 		return
 	}
